@@ -56,6 +56,8 @@ T=[
  ("fx-export-list-dual-meaning","C09","c4254aa","replays/C09/fixed/export-list-dual-meaning.json","export { CUnitQ } of a name that is both a constant and a type (const CUnitQ = \"ms\" as const; type CUnitQ = ...) exported the type only: import { CUnitQ } from \"./entry\" used as a value in another module reported Cannot resolve value 'entry.ts::CUnitQ' (the single-file program compiles)"),
  ("fx-describe-empty-union","C15","1a46d80","replays/C15/fixed/empty-union-described-as-parens.json","describe() printed never | never as \"()\" (not parseable)"),
  ("fx-pick-keys-behind-alias","C01","71e5358","replays/C01/fixed/pick-keys-behind-alias.json","Pick<U, K> with the key union behind an alias (type K = \"a\" | \"c\"; also a single literal behind an alias) was refused with 'Pick should have string or string array as type argument', while Omit<U, K> and Pick<U, K1 | \"zz\"> compiled"),
+ ("fx-type-parameter-dynamic-scope","C01","048d16b","replays/C01/fixed/type-parameter-dynamic-scope-simple.json","type parameters were dynamically scoped: a non-generic alias first reached from inside a generic type resolved a same-named global alias to the generic's argument and was cached that way (type T = number; type Inner = { v: T }; type Outer<T> = { inner: Inner; t: T }: Outer<string> made Inner accept { v: \"x\" })"),
+ ("fx-type-parameter-dynamic-scope-found","C01","048d16b","replays/C01/fixed/type-parameter-dynamic-scope.json","the same defect as found and shrunk by the generator (a named type called T mentioned through an alias inside a generic definition)"),
 ]
 p='/verif/known_findings.json'
 doc=json.load(open(p))
